@@ -132,11 +132,11 @@ MUTANTS = [
      """        let shape_result = self.shape_writer.write_shape(shape);
         self.dbase_writer.write_record(record)?;
         shape_result"""),
-    ('m18_typed_read_accepts_pointm_as_point', ['C06', 'C03'], 'src/record/mod.rs',
+    ('m18_typed_read_accepts_polylinem_without_m_as_polyline', ['C06', 'C03'], 'src/record/mod.rs',
      """        if shapetype == Self::shapetype() {
             S::read_shape_content(&mut source, record_size)""",
      """        if shapetype == Self::shapetype()
-            || (shapetype == ShapeType::PointM && Self::shapetype() == ShapeType::Point && record_size == 16)
+            || (shapetype == ShapeType::PolylineM && Self::shapetype() == ShapeType::Polyline)
         {
             S::read_shape_content(&mut source, record_size)"""),
 ]
